@@ -8,19 +8,19 @@ Section DocP.
   Variable Leaf : Type.
   Variable leaf_eqb : Leaf -> Leaf -> bool.
   Variable ev : Leaf -> option Leaf.
+  Variable evk : Leaf -> option Leaf.
   Variable exclude_key : Leaf.
 
   Notation doc := (Doc.doc Leaf).
-  Notation apply := (Doc.apply Leaf leaf_eqb ev exclude_key).
+  Notation apply := (Doc.apply Leaf leaf_eqb ev evk exclude_key).
   Notation reading := (Doc.reading Leaf leaf_eqb ev exclude_key).
-  Notation ideal := (Doc.ideal Leaf leaf_eqb ev exclude_key).
-  Notation as_coded := (Doc.as_coded Leaf leaf_eqb ev exclude_key).
-  Notation keys_ok := (Doc.keys_ok Leaf leaf_eqb ev exclude_key).
+  Notation hooked := (Doc.hooked Leaf leaf_eqb ev evk exclude_key).
   Notation excluded := (Doc.excluded Leaf leaf_eqb exclude_key).
   Notation set := (Doc.set Leaf leaf_eqb).
   Notation mem := (Doc.mem Leaf leaf_eqb).
   Notation dict_of := (Doc.dict_of Leaf leaf_eqb).
   Notation distinct_keys := (Doc.distinct_keys Leaf leaf_eqb).
+  Notation distinct_all := (Doc.distinct_all Leaf leaf_eqb).
   Notation is_container := (Doc.is_container Leaf).
 
   (* induction over nested documents *)
@@ -57,26 +57,22 @@ Section DocP.
                        | Some k', Some x' => go r (set acc k' (DLeaf x'))
                        | _, _ => None
                        end
-          | _ => match apply v with Some v' => go r (set acc k v') | None => None end
+          | _ => match evk k, apply v with
+                 | Some k', Some v' => go r (set acc k' v')
+                 | _, _ => None
+                 end
           end
       end.
-  Definition goR (kk : bool) (ex : list Leaf) :=
+  Definition goR (keyc : Leaf -> option Leaf) (mk : list (Leaf * doc) -> list (Leaf * doc)) (ex : list Leaf) :=
     fix go (l : list (Leaf * doc)) : option (list (Leaf * doc)) :=
       match l with
       | [] => Some []
       | (k, v) :: r =>
           if mem k ex then go r else
-          match (if kk || negb (is_container v) then ev k else Some k), reading kk v with
+          match (if is_container v then keyc k else ev k), reading keyc mk v with
           | Some k', Some v' => match go r with Some r' => Some ((k', v') :: r') | None => None end
           | _, _ => None
           end
-      end.
-  Definition allL := fix all (l : list doc) : Prop := match l with [] => True | x :: r => keys_ok x /\ all r end.
-  Definition allK (ex : list Leaf) :=
-    fix all (l : list (Leaf * doc)) : Prop :=
-      match l with
-      | [] => True
-      | (k, v) :: r => (mem k ex = false -> keys_ok v /\ (is_container v = true -> ev k = Some k)) /\ all r
       end.
 
   Lemma apply_list ds : apply (DList ds) = match listA apply ds with Some ds' => Some (DList ds') | None => None end.
@@ -87,17 +83,14 @@ Section DocP.
     | Some ex => match goA ex kvs [] with Some acc => Some (DDict acc) | None => None end
     end.
   Proof. reflexivity. Qed.
-  Lemma reading_list kk ds : reading kk (DList ds) = match listA (reading kk) ds with Some ds' => Some (DList ds') | None => None end.
+  Lemma reading_list keyc mk ds :
+    reading keyc mk (DList ds) = match listA (reading keyc mk) ds with Some ds' => Some (DList ds') | None => None end.
   Proof. reflexivity. Qed.
-  Lemma reading_dict kk kvs : reading kk (DDict kvs) =
+  Lemma reading_dict keyc mk kvs : reading keyc mk (DDict kvs) =
     match excluded kvs with
     | None => None
-    | Some ex => match goR kk ex kvs with Some es => Some (DDict (dict_of es)) | None => None end
+    | Some ex => match goR keyc mk ex kvs with Some es => Some (DDict (mk es)) | None => None end
     end.
-  Proof. reflexivity. Qed.
-  Lemma keys_ok_list ds : keys_ok (DList ds) = allL ds.
-  Proof. reflexivity. Qed.
-  Lemma keys_ok_dict kvs : keys_ok (DDict kvs) = (forall ex, excluded kvs = Some ex -> allK ex kvs).
   Proof. reflexivity. Qed.
 
   Lemma listA_ext f g ds : Forall (fun d => f d = g d) ds -> listA f ds = listA g ds.
@@ -105,59 +98,34 @@ Section DocP.
 
   Definition setf := fun (acc : list (Leaf * doc)) (kv : Leaf * doc) => set acc (fst kv) (snd kv).
 
-  Lemma goA_goR ex : forall l, Forall (fun kv => apply (snd kv) = reading false (snd kv)) l ->
-    forall acc, goA ex l acc = match goR false ex l with Some es => Some (fold_left setf es acc) | None => None end.
+  Lemma goA_goR ex : forall l, Forall (fun kv => apply (snd kv) = reading evk dict_of (snd kv)) l ->
+    forall acc, goA ex l acc = match goR evk dict_of ex l with Some es => Some (fold_left setf es acc) | None => None end.
   Proof.
     induction 1 as [|[k v] r Hv _ IH]; intros acc; cbn [goA goR]; [reflexivity|].
     destruct (mem k ex); [apply IH|]. cbn [snd] in Hv.
     destruct v as [x|ds|kvs].
-    - cbn [Doc.is_container negb orb Doc.reading]. destruct (ev k) as [k'|]; [|reflexivity]. destruct (ev x) as [x'|]; [|reflexivity].
-      rewrite IH. destruct (goR false ex r); reflexivity.
-    - rewrite Hv. cbn [Doc.is_container negb orb]. destruct (reading false (DList ds)) as [v'|]; [|reflexivity].
-      rewrite IH. destruct (goR false ex r); reflexivity.
-    - rewrite Hv. cbn [Doc.is_container negb orb]. destruct (reading false (DDict kvs)) as [v'|]; [|reflexivity].
-      rewrite IH. destruct (goR false ex r); reflexivity.
+    - cbn [Doc.is_container Doc.reading]. destruct (ev k) as [k'|]; [|reflexivity]. destruct (ev x) as [x'|]; [|reflexivity].
+      rewrite IH. destruct (goR evk dict_of ex r); reflexivity.
+    - rewrite Hv. cbn [Doc.is_container]. destruct (evk k) as [k'|]; [|reflexivity].
+      destruct (reading evk dict_of (DList ds)) as [v'|]; [|reflexivity].
+      rewrite IH. destruct (goR evk dict_of ex r); reflexivity.
+    - rewrite Hv. cbn [Doc.is_container]. destruct (evk k) as [k'|]; [|reflexivity].
+      destruct (reading evk dict_of (DDict kvs)) as [v'|]; [|reflexivity].
+      rewrite IH. destruct (goR evk dict_of ex r); reflexivity.
   Qed.
 
-  (* (1) what the code computes, for EVERY document: every '{{e}}' value, list element and key of a scalar-valued entry
-     is evaluated; excluded entries are dropped; the key of a dict- or list-valued entry is left as it is *)
-  Theorem apply_as_coded : forall d, apply d = as_coded d.
+  (* (1) what _apply computes, for EVERY document and EVERY pair of hooks: the entries listed under "exclude" (and
+     "exclude" itself) are dropped; every scalar value, list element and key of a scalar-valued entry goes through ev,
+     the key of a dict-/list-valued entry through the patch_key hook evk, at any depth; the result dict is built in
+     order with Python's d[k] = v *)
+  Theorem apply_hooked : forall d, apply d = hooked d.
   Proof.
-    unfold Doc.as_coded. apply doc_induction.
+    unfold Doc.hooked. apply (doc_induction (fun d => apply d = reading evk dict_of d)).
     - reflexivity.
     - intros ds H. rewrite apply_list, reading_list. rewrite (listA_ext _ _ _ H). reflexivity.
     - intros kvs H. rewrite apply_dict, reading_dict. destruct (excluded kvs) as [ex|]; [|reflexivity].
-      rewrite (goA_goR ex kvs H []). destruct (goR false ex kvs); reflexivity.
+      rewrite (goA_goR ex kvs H []). destruct (goR evk dict_of ex kvs); reflexivity.
   Qed.
-
-  Lemma goR_agree ex : forall l, Forall (fun kv => keys_ok (snd kv) -> reading false (snd kv) = reading true (snd kv)) l ->
-    allK ex l -> goR false ex l = goR true ex l.
-  Proof.
-    induction 1 as [|[k v] r Hv _ IH]; intros HA; cbn [goR]; [reflexivity|].
-    cbn [allK] in HA. destruct HA as [Hkv Hr]. specialize (IH Hr).
-    destruct (mem k ex); [exact IH|]. destruct (Hkv eq_refl) as [Hok Hk]. cbn [snd] in Hv. rewrite (Hv Hok), IH.
-    destruct (is_container v) eqn:C; cbn [negb orb]; [|reflexivity].
-    rewrite (Hk eq_refl). reflexivity.
-  Qed.
-
-  Lemma reading_agree : forall d, keys_ok d -> reading false d = reading true d.
-  Proof.
-    apply (doc_induction (fun d => keys_ok d -> reading false d = reading true d)).
-    - reflexivity.
-    - intros ds H Hok. rewrite !reading_list. rewrite keys_ok_list in Hok.
-      assert (E : listA (reading false) ds = listA (reading true) ds).
-      { induction H as [|x r Hx _ IH]; [reflexivity|]. cbn [allL] in Hok. destruct Hok as [Ox Or].
-        cbn [listA]. rewrite (Hx Ox), (IH Or). reflexivity. }
-      rewrite E. reflexivity.
-    - intros kvs H Hok. rewrite !reading_dict. rewrite keys_ok_dict in Hok.
-      destruct (excluded kvs) as [ex|]; [|reflexivity].
-      rewrite (goR_agree ex kvs H (Hok ex eq_refl)). reflexivity.
-  Qed.
-
-  (* (2) the largest part of the property's statement that is true of the code: when no surviving key in front of a
-     dict / list is an expression, apply = "every expression replaced" *)
-  Theorem apply_ideal_partial : forall d, keys_ok d -> apply d = ideal d.
-  Proof. intros d H. rewrite apply_as_coded. unfold Doc.as_coded, Doc.ideal. apply reading_agree, H. Qed.
 
   (* building the dict changes nothing when the (interpreted) keys are pairwise different *)
   Lemma set_fresh acc k v : forallb (fun kv => negb (leaf_eqb (fst kv) k)) acc = true -> set acc k v = acc ++ [(k, v)].
@@ -186,6 +154,47 @@ Section DocP.
   Theorem dict_of_distinct l : distinct_keys l = true -> dict_of l = l.
   Proof. intros H. unfold Doc.dict_of. apply (fold_set_distinct l [] H). reflexivity. Qed.
 
+
+  (* (2) when no two interpreted keys of one dict coincide (anywhere in the result), building the dict is the identity:
+     the reading with Python's dict semantics is the plain map *)
+  Lemma goR_plain keyc ex : forall l es,
+    Forall (fun kv => forall d', reading keyc (fun es => es) (snd kv) = Some d' -> distinct_all d' = true ->
+                                 reading keyc dict_of (snd kv) = Some d') l ->
+    goR keyc (fun es => es) ex l = Some es -> forallb (fun kv => distinct_all (snd kv)) es = true ->
+    goR keyc dict_of ex l = Some es.
+  Proof.
+    induction l as [|[k v] r IH]; intros es HF H HD; cbn [goR] in *; [exact H|].
+    inversion HF as [|? ? Hv Hr]; subst. cbn [snd] in Hv.
+    destruct (mem k ex); [apply IH; assumption|].
+    destruct (if is_container v then keyc k else ev k) as [k'|]; [|discriminate].
+    destruct (reading keyc (fun es => es) v) as [v'|] eqn:Ev; [|discriminate].
+    destruct (goR keyc (fun es => es) ex r) as [r'|] eqn:Er; [|discriminate].
+    injection H as <-. cbn [forallb snd] in HD. apply andb_true_iff in HD. destruct HD as [HD1 HD2].
+    rewrite (Hv v' eq_refl HD1). rewrite (IH r' Hr eq_refl HD2). reflexivity.
+  Qed.
+
+  Theorem reading_plain keyc : forall d d', reading keyc (fun es => es) d = Some d' -> distinct_all d' = true ->
+    reading keyc dict_of d = Some d'.
+  Proof.
+    apply (doc_induction (fun d => forall d', reading keyc (fun es => es) d = Some d' -> distinct_all d' = true ->
+                                              reading keyc dict_of d = Some d')).
+    - intros l d' H _. exact H.
+    - intros ds HF d' H HD. rewrite reading_list in *.
+      destruct (listA (reading keyc (fun es => es)) ds) as [ds'|] eqn:E; [|discriminate]. injection H as <-.
+      cbn [Doc.distinct_all] in HD.
+      assert (X : listA (reading keyc dict_of) ds = Some ds').
+      { clear - HF E HD. revert ds' E HD. induction HF as [|x r Hx _ IH]; intros ds' E HD; cbn [listA] in *; [exact E|].
+        destruct (reading keyc (fun es => es) x) as [x'|] eqn:Ex; [|discriminate].
+        destruct (listA (reading keyc (fun es => es)) r) as [r'|] eqn:Er; [|discriminate].
+        injection E as <-. cbn [forallb] in HD. apply andb_true_iff in HD. destruct HD as [H1 H2].
+        rewrite (Hx x' eq_refl H1), (IH r' eq_refl H2). reflexivity. }
+      rewrite X. reflexivity.
+    - intros kvs HF d' H HD. rewrite reading_dict in *. destruct (excluded kvs) as [ex|]; [|discriminate].
+      destruct (goR keyc (fun es => es) ex kvs) as [es|] eqn:E; [|discriminate]. injection H as <-.
+      cbn [Doc.distinct_all] in HD. apply andb_true_iff in HD. destruct HD as [HD1 HD2].
+      rewrite (goR_plain keyc ex kvs es HF E HD2). rewrite (dict_of_distinct es HD1). reflexivity.
+  Qed.
+
   (* (3) Spec.interpret: the store is a value, interpretation returns it unchanged and is a function of its inputs *)
   Notation interpret := (Doc.interpret Leaf).
   Notation interpret_in := (Doc.interpret_in Leaf).
@@ -208,23 +217,25 @@ End DocP.
 (* ------------------------------------------------------------------------------------------------ the instance *)
 Local Open Scope Q_scope.
 
-Theorem arith_apply_as_coded : forall r d, arith_apply r d = arith_as_coded r d.
-Proof. intros r d. apply apply_as_coded. Qed.
+(* C15_apply_spec, the FULL statement, no side condition: for every binding and every document ArithmeticPatch.apply is
+   the document with every '{{e}}' -- value, list element, key of a scalar-valued entry, key of a dict-/list-valued
+   entry, at any depth -- replaced by eval e (excluded entries dropped, the result dict built in order) *)
+Theorem arith_apply_spec : forall r d, arith_apply r d = arith_ideal r d.
+Proof. intros r d. unfold arith_apply, arith_ideal, Doc.ideal. rewrite apply_hooked. reflexivity. Qed.
 
-Theorem arith_apply_partial : forall r d, keys_ok leaf leaf_eqb (ev r) exclude_key d -> arith_apply r d = arith_ideal r d.
-Proof. intros r d. apply apply_ideal_partial. Qed.
+(* ... and it is the plain "replace everything" map whenever the interpreted keys of each dict are pairwise different *)
+Theorem arith_apply_plain : forall r d d', arith_plain r d = Some d' -> distinct_all leaf leaf_eqb d' = true ->
+  arith_apply r d = Some d'.
+Proof. intros r d d' H HD. rewrite arith_apply_spec. apply reading_plain; assumption. Qed.
 
-(* the full statement is false of the code:  {"{{ 1 + 1 }}": {"a": 1}}  keeps its key *)
-Definition witness_key : leaf := LStr 1 (Some [TNum 1; TOp Add; TNum 1]).
-Definition witness : sdoc := DDict [(witness_key, DDict [(LStr 2 None, DLeaf (LNum 1))])].
-Theorem arith_apply_refuted : exists r d, arith_apply r d <> arith_ideal r d.
-Proof.
-  exists (fun _ => None), witness. vm_compute. intro H. discriminate H.
-Qed.
-Example witness_values :
-  arith_apply (fun _ => None) witness = Some witness /\
-  arith_ideal (fun _ => None) witness = Some (DDict [(LNum (1 + 1), DDict [(LStr 2 None, DLeaf (LNum 1))])]).
-Proof. vm_compute. split; reflexivity. Qed.
+(* the witness of the former finding (repaired by e5276b7):  {"{{ 1 + 1 }}": {"a": 1}, "{{ 3 }}": ["{{ 1 }}"]} *)
+Definition witness : sdoc :=
+  DDict [(LStr 1 (Some [TNum 1; TOp Add; TNum 1]), DDict [(LStr 2 None, DLeaf (LNum 1))]);
+         (LStr 3 (Some [TNum 3]), DList [DLeaf (LStr 4 (Some [TNum 1]))])].
+Example witness_value :
+  arith_apply (fun _ => None) witness =
+    Some (DDict [(LNum (1 + 1), DDict [(LStr 2 None, DLeaf (LNum 1))]); (LNum 3, DList [DLeaf (LNum 1)])]).
+Proof. vm_compute. reflexivity. Qed.
 
 (* each placement separately, for every expression, also when its value is 0 *)
 Theorem list_element_replaced : forall r i ts q, evalp r ts = Some q ->
@@ -232,6 +243,14 @@ Theorem list_element_replaced : forall r i ts q, evalp r ts = Some q ->
 Proof. intros r i ts q H. cbn. rewrite H. reflexivity. Qed.
 Theorem value_and_key_replaced : forall r i tk qk j tv qv, i <> exclude_id -> evalp r tk = Some qk -> evalp r tv = Some qv ->
   arith_apply r (DDict [(LStr i (Some tk), DLeaf (LStr j (Some tv)))]) = Some (DDict [(LNum qk, DLeaf (LNum qv))]).
+Proof.
+  intros r i tk qk j tv qv Hi Hk Hv. unfold arith_apply.
+  assert (E : N.eqb i exclude_id = false) by (apply N.eqb_neq; exact Hi).
+  cbn [apply]. unfold excluded, lookup, mem.
+  repeat first [rewrite E | rewrite Hk | rewrite Hv | progress cbn [leaf_eqb exclude_key existsb app orb ev Doc.set]]. reflexivity.
+Qed.
+Theorem container_key_replaced : forall r i tk qk j tv qv, i <> exclude_id -> evalp r tk = Some qk -> evalp r tv = Some qv ->
+  arith_apply r (DDict [(LStr i (Some tk), DList [DLeaf (LStr j (Some tv))])]) = Some (DDict [(LNum qk, DList [DLeaf (LNum qv)])]).
 Proof.
   intros r i tk qk j tv qv Hi Hk Hv. unfold arith_apply.
   assert (E : N.eqb i exclude_id = false) by (apply N.eqb_neq; exact Hi).
@@ -249,8 +268,8 @@ Proof.
   repeat first [rewrite Ek | rewrite Ej | rewrite H | progress cbn [leaf_eqb exclude_key existsb app orb ev Doc.set]]. reflexivity.
 Qed.
 
-(* non-vacuity: a document with an excluded entry, an expression that is 0 in a list, expression keys and values,
-   and a variable; it satisfies keys_ok, and apply = ideal = the expected document *)
+(* non-vacuity: a document with an excluded entry, an expression that is 0 in a list, expression keys in front of a scalar
+   and in front of a dict, and a variable; its interpreted keys are pairwise different *)
 Open Scope string_scope.
 Definition sample_env : env := env_of [("skill_level", 12); ("x", 0)].
 Definition sample_doc : sdoc :=
@@ -258,15 +277,21 @@ Definition sample_doc : sdoc :=
           (LStr 5 None, DLeaf (LStr 6 (Some [TNum 1; TOp Div; TNum 0])));                     (* dropped: "{{ 1/0 }}" never evaluated *)
           (LStr 7 None, DList [DLeaf (LStr 8 (Some [TVar "x"])); DLeaf (LNum 3)]);            (* [ "{{ x }}", 3 ]  with x = 0 *)
           (LStr 9 (Some [TNum 2; TOp Mul; TNum 3]), DLeaf (LStr 10 (Some [TVar "skill_level"; TOp IDiv; TNum 5])));
-          (LStr 11 None, DDict [(LStr 12 None, DLeaf (LStr 13 (Some [TNum 10; TOp Sub; TNum 4; TOp Sub; TNum 3])))]) ].
-Example sample_keys_ok : keys_ok leaf leaf_eqb (ev sample_env) exclude_key sample_doc.
-Proof. intros ex H. vm_compute in H. injection H as <-. cbn. repeat split; try discriminate; intros; try reflexivity; try exact I.
-  all: try (intros ex' H'; vm_compute in H'; injection H' as <-; cbn; repeat split; intros; try reflexivity; try discriminate; exact I). Qed.
+          (LStr 11 (Some [TNum 7; TOp Add; TVar "x"]),
+             DDict [(LStr 12 None, DLeaf (LStr 13 (Some [TNum 10; TOp Sub; TNum 4; TOp Sub; TNum 3])))]) ].
+Definition sample_result : sdoc :=
+  DDict [ (LStr 7 None, DList [DLeaf (LNum 0); DLeaf (LNum 3)]);
+          (LNum (2 * 3), DLeaf (LNum (qidiv 12 5)));
+          (LNum (7 + 0), DDict [(LStr 12 None, DLeaf (LNum (10 - 4 - 3)))]) ].
 Example sample_apply :
-  arith_apply sample_env sample_doc =
-    Some (DDict [ (LStr 7 None, DList [DLeaf (LNum 0); DLeaf (LNum 3)]);
-                  (LNum (2 * 3), DLeaf (LNum (qidiv 12 5)));
-                  (LStr 11 None, DDict [(LStr 12 None, DLeaf (LNum (10 - 4 - 3)))]) ])
-  /\ arith_ideal sample_env sample_doc = arith_apply sample_env sample_doc.
-Proof. vm_compute. split; reflexivity. Qed.
+  arith_apply sample_env sample_doc = Some sample_result
+  /\ arith_plain sample_env sample_doc = Some sample_result
+  /\ distinct_all leaf leaf_eqb sample_result = true.
+Proof. vm_compute. repeat split; reflexivity. Qed.
+(* ... and one where two interpreted keys coincide: the later value lands on the earlier key's place *)
+Example colliding_keys :
+  arith_apply sample_env (DDict [(LStr 1 (Some [TNum 1]), DLeaf (LNum 10)); (LStr 2 None, DLeaf (LNum 20));
+                                 (LStr 3 (Some [TNum 2; TOp Sub; TNum 1]), DList [])])
+  = Some (DDict [(LNum 1, DList []); (LStr 2 None, DLeaf (LNum 20))]).
+Proof. vm_compute. reflexivity. Qed.
 Close Scope string_scope.
